@@ -114,6 +114,14 @@ CHECKS = {
             "pairs and across native/portable routes, on generated programs, stdlib samples and corpus files.",
             "normalised: addresses, host banner, code-object repr spelling, element order in set reprs",
             "DESIGN.md §4 C07"),
+    "C20": ("generated terminating programs executed inside host workers 3.8-3.13 to materialise functions, methods, "
+            "classes, generators, coroutines, async generators, code and source strings; differential of every "
+            "xdis.std function against the host's dis namesake (with drawn first_line); make_std_api(v) on foreign "
+            "hosts compared with v's own CPython dis dump",
+            "xdis.std accepts what dis accepts and returns the same instruction fields, labels, line starts and "
+            "tables on generated objects on all six hosts; make_std_api(v) reproduces v's dis data for 2.7, 3.6-3.13.",
+            "host dis is ground truth; CACHE entries filtered; 3.13 exception-range labels follow C04's definition",
+            "DESIGN.md §4 C20"),
 }
 
 NOT_YET = {}
